@@ -13,6 +13,8 @@ import (
 
 var wopKinds = []string{"put", "put", "put", "put", "get", "get", "has", "remove", "remove", "len", "size", "clear"}
 
+var wopKindsFocus = []string{"put", "put", "put", "get", "get", "has", "has", "has", "remove", "len", "size"}
+
 var genWorkload = rapid.Custom(func(t *rapid.T) Workload {
 	w := Workload{
 		Limit: rapid.IntRange(3, 5).Draw(t, "limit"),
@@ -21,16 +23,28 @@ var genWorkload = rapid.Custom(func(t *rapid.T) Workload {
 		Yield: rapid.IntRange(0, 7).Draw(t, "yield"),
 	}
 	ng := rapid.IntRange(2, 4).Draw(t, "ng")
+	// Focus modes: a narrow key range and values nearly as large as the limit
+	// keep the cache at one or two entries, so that replacing and
+	// everything-evicting Puts overlap reads of the same key.
+	nkeys := rapid.SampledFrom([]int{4, 4, 2, 2, 1}).Draw(t, "nkeys")
+	bigVals := rapid.IntRange(0, 2).Draw(t, "bigvals") == 0
+	kinds := wopKinds
+	if nkeys <= 2 {
+		kinds = wopKindsFocus
+	}
 	for g := 0; g < ng; g++ {
 		n := rapid.IntRange(4, 12).Draw(t, "nops")
 		var ops []WOp
 		for i := 0; i < n; i++ {
-			op := WOp{Kind: rapid.SampledFrom(wopKinds).Draw(t, "k")}
+			op := WOp{Kind: rapid.SampledFrom(kinds).Draw(t, "k")}
 			switch op.Kind {
 			case "put":
-				op.K, op.S = rapid.IntRange(0, 3).Draw(t, "key"), rapid.IntRange(1, 3).Draw(t, "s")
+				op.K, op.S = rapid.IntRange(0, nkeys-1).Draw(t, "key"), rapid.IntRange(1, 3).Draw(t, "s")
+				if bigVals {
+					op.S = min(3, w.Limit-rapid.IntRange(0, 1).Draw(t, "slack"))
+				}
 			case "get", "has", "remove":
-				op.K = rapid.IntRange(0, 3).Draw(t, "key")
+				op.K = rapid.IntRange(0, nkeys-1).Draw(t, "key")
 			}
 			ops = append(ops, op)
 		}
